@@ -5,7 +5,7 @@ import lib
 import nodelib
 import nodescen
 
-TARGETS = ["Props/C08.v", "Cluster/Script.v"]
+TARGETS = ["Props/C08.v", "Cluster/Script.v", "SM/NsScript.v"]
 
 MANIFEST = dict(
     text="Proof about the install logic (catalogue + SaveMember(header) + load of every snapshot record into the live "
@@ -97,6 +97,80 @@ def run(chk, replay=None):
                                  % (c["prefix"], len(c["reqs"]), comp, lib.diff_first(va[comp], vb[comp])),
                                  {"suite": "dispatch", "case": c, "component": comp, "leader": va[comp], "installed": vb[comp]})
         chk.cov["install_live_cases"] = n_inst
+
+    # ---- NamespaceActor scripts: the real actor vs SM/ConcreteNs.v (incl. weak namespaces and LIVE install) ------
+    if ok_h:
+        def cb(x):
+            return "[" + ";".join(str(b) for b in x.encode("utf-8")) + "]%N"
+
+        def copt(x):
+            return "None" if x is None else "(Some %s)" % cb(x)
+        ids = ["ns1", "ns2", "t1", "dev", "public", "", "__already_sync"]
+
+        def gen_ns_script():
+            ops, sid = [], 0
+            for _ in range(rng.randrange(4, 30)):
+                x = rng.random()
+                nid = rng.choice(ids)
+                if x < 0.45:
+                    kind = rng.choice(["AddOnly", "Update", "Set", "Set", "Delete"])
+                    if kind == "Delete":
+                        ops.append(["req", {"Delete": {"id": nid}}])
+                    else:
+                        ops.append(["req", {kind: {"namespace_id": nid, "namespace_name": rng.choice([None, "name-" + nid, "other", ""]),
+                                                   "type": rng.choice([None, "2", "0"])}}])
+                elif x < 0.62:
+                    ops.append(["weak", nid, rng.choice(["Config", "Naming"])])
+                elif x < 0.72:
+                    ops.append(["unweak", nid, rng.choice(["Config", "Naming"])])
+                elif x < 0.82:
+                    sid += 1
+                    ops.append(["snap", sid])
+                elif x < 0.88 and sid:
+                    ops.append(["fresh"])
+                    ops.append(["load", rng.randrange(1, sid + 1)])
+                elif sid:
+                    ops.append(["load", rng.randrange(1, sid + 1)])          # install over the live state
+            return {"ops": ops}
+
+        def coq_nsop(o):
+            if o[0] == "req":
+                k, v = list(o[1].items())[0]
+                if k == "Delete":
+                    return "OReq (NsDelete %s)" % cb(v["id"])
+                return "OReq (Ns%s (mkNsP %s %s %s))" % (k, cb(v["namespace_id"]), copt(v["namespace_name"]), copt(v["type"]))
+            if o[0] in ("weak", "unweak"):
+                return "%s %s %d" % ("OWeak" if o[0] == "weak" else "OUnweak", cb(o[1]), 4 if o[2] == "Config" else 8)
+            if o[0] == "snap":
+                return "OSnap %d" % o[1]
+            if o[0] == "fresh":
+                return "OFresh"
+            return "OLoad %d" % o[1]
+        ncases = [gen_ns_script() for _ in range(60 if tier == "quick" else 1500)]
+        nres = lib.harness_run_parallel("ns", ncases, shards=4)
+        try:
+            nmod = lib.coq_eval_sharded("c08ns", "From RN Require Import SM.ConcreteNs SM.NsScript.\nOpen Scope N_scope.\n",
+                                        ["map fst (ns_run ns_init [] [%s])" % ";".join(coq_nsop(o) for o in c["ops"]) for c in ncases], per=10)
+        except RuntimeError as ex:
+            chk.violation("namespace model evaluation failed: %s" % str(ex)[:300], {"broken": "model evaluation", "log": str(ex)[-2000:]}, False)
+            nmod = None
+        n_ns = 0
+        if nmod is not None:
+            for c, r, m in zip(ncases, nres, nmod):
+                n_eval += 1
+                if r.get("r") != "ok":
+                    chk.violation("ns suite failed on a script: %s" % str(r)[:200], {"suite": "ns", "case": c}, True)
+                    continue
+                mm = [[[bytes(e[0]).decode("utf-8", "replace"), bytes(e[1]).decode("utf-8", "replace"), int(e[2])] for e in step] for step in m]
+                n_ns += len(mm)
+                if mm != r["out"]:
+                    j = next((i for i in range(min(len(mm), len(r["out"]))) if mm[i] != r["out"][i]), -1)
+                    chk.violation("model != implementation (NamespaceActor script, after op #%d %s): model=%s impl=%s"
+                                  % (j, json.dumps(c["ops"][j]) if 0 <= j < len(c["ops"]) else "?", json.dumps(mm[j])[:200] if j >= 0 else "?",
+                                     json.dumps(r["out"][j])[:200] if j >= 0 else "?"),
+                                  {"suite": "ns", "case": {"ops": c["ops"][:j + 1]}, "model": mm[j] if j >= 0 else None,
+                                   "impl": r["out"][j] if j >= 0 else None, "correspondence": "SM.ConcreteNs / SM.NsScript"}, False)
+        chk.cov["namespace_script_steps"] = n_ns
 
     # ---- late join ---------------------------------------------------------------------
     shapes = [(90, 30), (60, 10)] if tier == "quick" else [(90, 30), (60, 10), (300, 50), (40, 5), (500, 100), (120, 20)]
